@@ -309,10 +309,22 @@ def clause_a(facts, rep):
 def clause_b(facts, rep):
     errs = facts.enum_values()
     for f in [f for f in facts.functions if f.qn == NS + 'SerializeImpl']:
-        # F64toa result: the push of rn is dominated by rn > 0, and rn <= 0 reaches a non-zero error return
+        # F64toa result: the push of rn is dominated by rn > 0, and rn <= 0 reaches a non-zero error return.
+        # `rn` by role: the local(s) that receive a length computed from the return value of F64toa
+        rn_ids = set()
+        for _b, _i, _s, e_ in f.walk():
+            if e_.get('k') == 'bin' and e_['op'] == '=' and strip(e_['l']) is not None and strip(e_['l']).get('k') == 'ref' and \
+                    any(x.get('k') == 'call' and x.get('cname') == 'F64toa' for x in walk(e_['r'])):
+                rn_ids.add(strip(e_['l'])['id'])
+            if e_.get('k') == 'decl':
+                for vd in e_.get('vars', []):
+                    if vd.get('init') is not None and any(x.get('k') == 'call' and x.get('cname') == 'F64toa' for x in walk(vd['init'])):
+                        rn_ids.add(vd['id'])
+        rep.require(rn_ids, 'C06.b: the variable receiving the F64toa length not bound')
+
         def gen_edge(b, cond, sense):
             c = strip_expect(cond)
-            if c is not None and c.get('k') == 'bin' and c['op'] in ('<=', '<', '>', '>=') and strip(c['l']).get('k') == 'ref' and strip(c['l']).get('name') == 'rn':
+            if c is not None and c.get('k') == 'bin' and c['op'] in ('<=', '<', '>', '>=') and strip(c['l']).get('k') == 'ref' and strip(c['l']).get('id') in rn_ids:
                 v = cval(c['r'])
                 pos = (c['op'] == '<=' and v == 0 and not sense) or (c['op'] == '<' and v == 1 and not sense) or \
                       (c['op'] == '>' and v == 0 and sense) or (c['op'] == '>=' and v == 1 and sense)
@@ -336,7 +348,7 @@ def clause_b(facts, rep):
         for bid, i, s, e in f.walk():
             if e.get('k') == 'call' and e.get('cname') == 'PushSizeUnsafe':
                 a = strip(e['args'][0])
-                if a.get('k') == 'ref' and a.get('name') == 'rn':
+                if a.get('k') == 'ref' and a.get('id') in rn_ids:
                     st = M.at(bid, i)
                     if st is None:
                         continue
@@ -638,7 +650,7 @@ def run(rep, tier):
         c07.clause_digit_text(facts, rep)   # every character of a number text is a digit (table pairs, '0' + x)
         c07.clause_e(facts, rep)      # every number text has a fraction/exponent; non-finite values (both signs) are refused, not printed
         narrowing.check(facts, rep, 'E3.lossless-narrowing', ('ftoa.h',), bounds={('FormatSignificand', 'sig'): 10 ** 17}, min_sites=2)
-        narrowing.check(facts, rep, 'E3.lossless-narrowing', ('itoa.h',), min_sites=1)
+        narrowing.check(get_facts(facts.config, norm=True), rep, 'E3.lossless-narrowing', ('itoa.h',), min_sites=1)
         # 'valid JSON': the string writer may only emit the escapes RFC 8259 defines - the escape tables (shared with C09 / C05)
         from . import c09, c05
         c09.clause_a(facts, rep)
